@@ -14,9 +14,8 @@
 (***************************************************************************)
 EXTENDS OptData
 
-(* the ranks of K in increasing order *)
-RECURSIVE Asc(_, _, _)
-Asc(n, K, i) == IF i > n THEN <<>> ELSE (IF i \in K THEN <<i>> ELSE <<>>) \o Asc(n, K, i + 1)
+(* the ranks of K among i..n in increasing order *)
+Asc(n, K, i) == SelectSeq([j \in 1..(n - i + 1) |-> j + i - 1], LAMBDA r : r \in K)
 
 (* DivideOn: the two output streams of a predicate on ranks *)
 Divide(n, K) == [kept |-> Asc(n, K, 1), disc |-> Asc(n, (1..n) \ K, 1)]
@@ -46,9 +45,9 @@ FileOf(r, rank, crc, D) ==
 (* the file set: file name |-> ranks of its records, in input order *)
 Distribute(recs, crcs, D) ==
   LET n == Len(recs)
-      file(i) == FileOf(recs[i], i, crcs[i], D)
-      names == {file(i) : i \in 1..n}
-  IN  [f \in names |-> Asc(n, {i \in 1..n : file(i) = f}, 1)]
+      file == [i \in 1..n |-> FileOf(recs[i], i, crcs[i], D)]
+      names == {file[i] : i \in 1..n}
+  IN  [f \in names |-> SelectSeq([j \in 1..n |-> j], LAMBDA i : file[i] = f)]
 
 ---------------------------------------------------------------------------
 (* obimultiplex -u: a read is identified iff its class (OptData!MuxSets) is "good" *)
